@@ -12,8 +12,23 @@ Definition blank_surface (h w : nat) : grid cell := gmake h w cell_default.
 Definition good_surface (o : oracle) (h w : nat) (s : grid cell) : Prop :=
   in_domain o h w s = true /\ overlap_free o h w s = true.
 
-Definition good_ops (o : oracle) (h w : nat) (ops : list op) : Prop :=
-  forall g, In (Draw g) ops -> good_surface o h w g.
+(* every surface drawn is good for the size the terminal has at that moment; a resize supplies a
+   screen of the new size *)
+Fixpoint good_ops (o : oracle) (h w : nat) (ops : list op) : Prop :=
+  match ops with
+  | [] => True
+  | Draw g :: ops' => good_surface o h w g /\ good_ops o h w ops'
+  | Resize h' w' g :: ops' => gdims g h' w' /\ good_ops o h' w' ops'
+  | _ :: ops' => good_ops o h w ops'
+  end.
+
+(* the size after a list of operations *)
+Fixpoint size_after (h w : nat) (ops : list op) : nat * nat :=
+  match ops with
+  | [] => (h, w)
+  | Resize h' w' _ :: ops' => size_after h' w' ops'
+  | _ :: ops' => size_after h w ops'
+  end.
 
 (* ---------- blank surfaces ---------- *)
 Lemma map_repeat' : forall {A B} (f : A -> B) v n, map f (repeat v n) = repeat (f v) n.
@@ -244,81 +259,124 @@ Qed.
 Fixpoint run (o : oracle) (st : rstate) (scr : screen) (ops : list op) : rstate * screen :=
   match ops with
   | [] => (st, scr)
-  | x :: ops' => run o (snd (rstep o st x)) (exec_list o scr (fst (rstep o st x))) ops'
+  | x :: ops' => run o (snd (rstep o st x)) (screen_step o scr x (fst (rstep o st x))) ops'
+  end.
+
+Definition step_size (h w : nat) (x : op) : nat * nat :=
+  match x with Resize h' w' _ => (h', w') | _ => (h, w) end.
+
+Definition good_op (o : oracle) (h w : nat) (x : op) : Prop :=
+  match x with
+  | Draw g => good_surface o h w g
+  | Resize h' w' g => gdims g h' w'
+  | _ => True
   end.
 
 Lemma hinv_step : forall o h w st scr x, oracle_ok o ->
-  HInv o h w st scr -> (forall g, x = Draw g -> good_surface o h w g) ->
-  HInv o h w (snd (rstep o st x)) (exec_list o scr (fst (rstep o st x))).
+  HInv o h w st scr -> good_op o h w x ->
+  HInv o (fst (step_size h w x)) (snd (step_size h w x))
+       (snd (rstep o st x)) (screen_step o scr x (fst (rstep o st x))).
 Proof.
-  intros o h w st scr x Hok HI Hgood. pose proof Hok as (Hsp & Hfs & Hlaw). destruct x as [g| | | |]; simpl.
+  intros o h w st scr x Hok HI Hgood. pose proof Hok as (Hsp & Hfs & Hlaw).
+  destruct x as [g| | | | |h' w' g]; unfold screen_step; cbn [rstep fst snd step_size].
   - apply hinv_draw; auto.
   - apply hinv_frame; auto.
   - apply hinv_skip; auto.
-  - rewrite (hi_h _ _ _ _ _ HI), (hi_w _ _ _ _ _ HI).
+  - rewrite rclear_state, (hi_h _ _ _ _ _ HI), (hi_w _ _ _ _ _ HI).
     apply (hinv_clear o h w st scr (front st)); auto; apply HI.
   - rewrite (hi_h _ _ _ _ _ HI), (hi_w _ _ _ _ _ HI).
     apply (hinv_clear o h w st scr (gmake h w cell_default)); auto.
     + apply gdims_gmake.
     + fold (blank_surface h w). rewrite blank_resolved. apply good_blank. auto.
+  - (* resize: the renderer's own placements were erased by clear(); the new screen is arbitrary *)
+    destruct (hinv_clear o h w st scr (gmake h w cell_default) Hok HI (gdims_gmake _ _ _)) as [HI1 He].
+    { fold (blank_surface h w). rewrite blank_resolved. apply good_blank. auto. }
+    simpl in Hgood.
+    constructor; cbn [rnew rh rw front back marks sgrid places]; auto.
+    + apply scr_ok_mk'. exact He. exact Hgood.
+    + apply gdims_gmake.
+    + fold (blank_surface h' w'). rewrite blank_resolved. apply good_blank. auto.
+    + apply good_blank. auto.
+    + exists MDamaged. split; auto.
+    + intros i r c. rewrite (hi_places _ _ _ _ _ HI1). cbn [back]. unfold img_cell.
+      split; intros (x & Hx & Hk); apply gget_gmake_inv in Hx; subst; discriminate.
 Qed.
 
-Lemma run_inv : forall o h w ops st scr, oracle_ok o ->
+Lemma good_ops_head : forall o h w x ops,
+  good_ops o h w (x :: ops) ->
+  good_op o h w x /\ good_ops o (fst (step_size h w x)) (snd (step_size h w x)) ops.
+Proof. intros o h w [g| | | | |h' w' g] ops H; simpl in *; tauto. Qed.
+
+Lemma run_inv : forall o ops h w st scr, oracle_ok o ->
   HInv o h w st scr -> good_ops o h w ops ->
-  HInv o h w (fst (run o st scr ops)) (snd (run o st scr ops)).
+  HInv o (fst (size_after h w ops)) (snd (size_after h w ops))
+       (fst (run o st scr ops)) (snd (run o st scr ops)).
 Proof.
-  intros o h w. induction ops as [|x ops IH]; intros st scr Hok HI Hgood; simpl; auto. pose proof Hok as (Hsp & Hfs & Hlaw).
-  apply IH; auto.
-  - apply hinv_step; auto. intros g ->. apply Hgood. left. reflexivity.
-  - intros g Hg. apply Hgood. right. exact Hg.
+  intros o. induction ops as [|x ops IH]; intros h w st scr Hok HI Hgood; simpl; auto.
+  apply good_ops_head in Hgood. destruct Hgood as [Hx Hrest].
+  pose proof (hinv_step o h w st scr x Hok HI Hx) as HI'.
+  specialize (IH _ _ _ _ Hok HI' Hrest).
+  destruct x; exact IH.
 Qed.
 
 Lemma run_app : forall o ops1 ops2 st scr,
   run o st scr (ops1 ++ ops2) = run o (fst (run o st scr ops1)) (snd (run o st scr ops1)) ops2.
 Proof. intros o. induction ops1; intros; simpl; auto. Qed.
 
+Lemma good_ops_app : forall o ops1 ops2 h w,
+  good_ops o h w (ops1 ++ ops2) <->
+  good_ops o h w ops1 /\ good_ops o (fst (size_after h w ops1)) (snd (size_after h w ops1)) ops2.
+Proof.
+  intros o. induction ops1 as [|x ops1 IH]; intros ops2 h w; simpl.
+  - tauto.
+  - destruct x; simpl; rewrite ?IH; tauto.
+Qed.
+
 (* the screen after every frame of every history is the denotation of the surface drawn for it *)
-Theorem history_spec_run : forall o h w ops st scr, oracle_ok o ->
+Theorem history_spec_run : forall o ops h w st scr, oracle_ok o ->
   HInv o h w st scr -> good_ops o h w ops ->
   spec_run o h w scr (front st) ops (rrun o st ops) = true.
 Proof.
-  intros o h w. induction ops as [|x ops IH]; intros st scr Hok HI Hgood; [reflexivity|]. pose proof Hok as (Hsp & Hfs & Hlaw).
-  assert (Hx : forall g, x = Draw g -> good_surface o h w g) by (intros g ->; apply Hgood; left; reflexivity).
+  intros o. induction ops as [|x ops IH]; intros h w st scr Hok HI Hgood; [reflexivity|].
+  pose proof Hok as (Hsp & Hfs & Hlaw).
+  apply good_ops_head in Hgood. destruct Hgood as [Hx Hgood'].
   pose proof (hinv_step o h w st scr x Hok HI Hx) as HI'.
-  assert (Hgood' : good_ops o h w ops) by (intros g Hg; apply Hgood; right; exact Hg).
-  assert (Herr : err (exec_list o scr (fst (rstep o st x))) = false) by apply HI'.
-  pose proof (IH _ _ Hok HI' Hgood') as Hrest.
+  assert (Herr : err (screen_step o scr x (fst (rstep o st x))) = false) by apply HI'.
+  pose proof (IH _ _ _ _ Hok HI' Hgood') as Hrest.
   cbn [rrun]. rewrite (surjective_pairing (rstep o st x)). cbn [spec_run].
   rewrite Herr. cbn [negb andb].
-  destruct x as [g| | | |].
-  - cbn [rstep fst snd] in *. destruct (hinv_draw o h w st scr g HI (Hx g eq_refl)) as [_ Hf].
+  destruct x as [g| | | | |h' w' g].
+  - cbn [rstep fst snd step_size] in *. destruct (hinv_draw o h w st scr g HI Hx) as [_ Hf].
     rewrite Hf in Hrest. exact Hrest.
-  - cbn [rstep] in *. rewrite (frame_shows o h w st scr Hok HI). cbn [andb].
+  - cbn [rstep step_size fst snd] in *. unfold screen_step in *.
+    rewrite (frame_shows o h w st scr Hok HI). cbn [andb].
     destruct (hinv_frame o h w st scr Hok HI) as (_ & Hf & _). unfold blank_surface in Hf.
     rewrite Hf in Hrest. exact Hrest.
-  - cbn [rstep fst snd] in *. destruct (hinv_skip o h w st scr Hok HI) as [_ Hf]. unfold blank_surface in Hf.
+  - cbn [rstep fst snd step_size] in *. destruct (hinv_skip o h w st scr Hok HI) as [_ Hf]. unfold blank_surface in Hf.
     rewrite Hf in Hrest. exact Hrest.
-  - cbn [rstep] in *. exact Hrest.
-  - cbn [rstep fst snd] in *.
+  - cbn [rstep step_size fst snd] in *. exact Hrest.
+  - cbn [rstep fst snd step_size] in *.
     rewrite (hi_h _ _ _ _ _ HI), (hi_w _ _ _ _ _ HI) in *. exact Hrest.
+  - cbn [rstep fst snd step_size] in *. exact Hrest.
 Qed.
 
 Theorem history_final : forall o h w ops s, oracle_ok o ->
-  good_ops o h w ops -> good_surface o h w s ->
+  good_ops o h w ops ->
+  good_surface o (fst (size_after h w ops)) (snd (size_after h w ops)) s ->
   same_display (snd (run o (rnew h w false) (blank_screen h w) (ops ++ [Draw s; Frame])))
-               (show o h w s) = true.
+               (show o (fst (size_after h w ops)) (snd (size_after h w ops)) s) = true.
 Proof.
   intros o h w ops s Hok Hgood Hs. pose proof Hok as (Hsp & Hfs & Hlaw). rewrite run_app.
-  pose proof (run_inv o h w ops _ _ Hok (hinv_init o h w false Hok) Hgood) as HI.
+  pose proof (run_inv o ops h w _ _ Hok (hinv_init o h w false Hok) Hgood) as HI.
   set (st := fst (run o (rnew h w false) (blank_screen h w) ops)) in *.
   set (scr := snd (run o (rnew h w false) (blank_screen h w) ops)) in *.
-  cbn [run rstep fst snd exec_list fold_left].
-  destruct (hinv_draw o h w st scr s HI Hs) as [HI1 Hf].
-  pose proof (frame_shows o h w (rdraw st s) scr Hok HI1) as H. rewrite Hf in H. exact H.
+  set (h1 := fst (size_after h w ops)) in *. set (w1 := snd (size_after h w ops)) in *.
+  cbn [run rstep fst snd]. unfold screen_step.
+  destruct (hinv_draw o h1 w1 st scr s HI Hs) as [HI1 Hf].
+  cbn [exec_list fold_left].
+  pose proof (frame_shows o h1 w1 (rdraw st s) scr Hok HI1) as H. rewrite Hf in H. exact H.
 Qed.
 
-(* a forced clear: whatever the terminal showed, the next frame leaves exactly the drawn surface
-   in every cell; placements the renderer does not know about are all that survives *)
 Theorem forced_repaint : forall o h w s scr, oracle_ok o ->
   good_surface o h w s -> scr_ok scr h w ->
   let scr' := exec_list o scr (fst (frame o (rdraw (rnew h w true) s))) in
